@@ -34,6 +34,10 @@ Proof.
     apply str_to_int_raises in E6. subst e. reflexivity.
 Qed.
 
+Lemma src_addr_str_ok be ver w v : src_IPAddress_str be ver w v = addr_str be ver v.
+Proof. reflexivity. Qed.
+
 Lemma C01_ctor_tie_ok :
-  forall be addr version flags, src_IPAddress_init_str be addr version flags = init_str be addr version flags.
-Proof. exact src_init_str_ok. Qed.
+  (forall be addr version flags, src_IPAddress_init_str be addr version flags = init_str be addr version flags) /\
+  (forall be ver w v, src_IPAddress_str be ver w v = addr_str be ver v).
+Proof. split; [exact src_init_str_ok|exact src_addr_str_ok]. Qed.
